@@ -44,6 +44,7 @@ def run(ctx):
     c05.side_rules(ctx, cg)
     c05.side_rules_2(ctx)
     c05.side_rules_3(ctx)
+    c05.side_rules_4(ctx, cg)
     validation_rules(ctx, cg)
     side = RV.SideConditions(ctx)
     # ---- A: the loader
